@@ -279,3 +279,21 @@ Definition wf_layout_tree (m : model) (t : tree) : bool :=
 (* the whole graph (triples, top, epigraph, metadata) the reading describes *)
 Definition reading_as_graph (m : model) (t : tree) : outcome graph :=
   r <- reading m t ;; Ok (reading_graph r (tmeta t)).
+
+(** * Diagnostics on a graph WITHOUT markers (C14_no_markers) *)
+(* is [c] an eligible node context for triple [t]: its source, or its target
+   when that is a variable and the triple is not an instance triple *)
+Definition eligible (vs : list atom) (t : triple) (c : atom) : bool :=
+  mem atom_eqb c
+      (tsrc t :: (if negb (str_eqb (trole t) INSTANCE) && mem atom_eqb (ttgt t) vs
+                  then [ttgt t] else [])).
+Fixpoint take_while {A : Type} (p : A -> bool) (l : list A) : list A :=
+  match l with [] => [] | x :: r => if p x then x :: take_while p r else [] end.
+(* [Some top] while top is eligible, unknown from the first triple where it is not *)
+Fixpoint ctx_prefix (p : triple -> bool) (top : atom) (ts : list triple) : list (option atom) :=
+  match ts with
+  | [] => []
+  | t :: r => if p t then Some top :: ctx_prefix p top r else map (fun _ => None) ts
+  end.
+Definition top_or_none (g : graph) : atom :=
+  match graph_top g with Some t => t | None => ANone end.
